@@ -204,6 +204,93 @@ Proof. exists (mk_inp false false false true true false false false false false 
 Example entry_point_serves : exists i, consistent i = true /\ ep_read_post i 77 196 = Data 196.
 Proof. exists (mk_inp false false false true true false true false false false false true true false true false). vm_compute. auto. Qed.
 
+(* ------------------------------------------------------------------ article entry points on any board content *)
+Lemma refused_guarded A i (body : outcome A) : refused body = false -> refused (guarded i body) = negb (may_read i).
+Proof. intros H. rewrite guarded_rule. destruct (may_read i); [exact H | reflexivity]. Qed.
+
+Lemma file_outcome_not_refused f : refused (file_outcome f) = false.
+Proof. destruct f; reflexivity. Qed.
+
+(* an entry point refuses exactly when the rule refuses — whatever the board holds (no article at all, no pinned
+   article, pinned ones only, both; article file / template there or not; counters loaded or not) *)
+Lemma entry_points_any_content : forall (i : inp) (c : content),
+  epc_is_board_valid_user i c = Data (may_read i) /\
+  refused (epc_load_general_articles i c) = negb (may_read i) /\
+  refused (epc_load_bottom_articles i c) = negb (may_read i) /\
+  refused (epc_find_article_start_idx i c) = negb (may_read i) /\
+  (forall fn0, (fn0 =? 76) || (fn0 =? 0) = false -> refused (epc_read_post i fn0 c) = negb (may_read i)) /\
+  refused (epc_read_post_template i c) = negb (may_read i).
+Proof.
+  intros i c. destruct (entry_points i) as (H0 & _).
+  split; [exact H0 |].
+  split; [unfold epc_load_general_articles, ep_load_general_articles; apply refused_guarded; destruct (c_total c =? 0); reflexivity |].
+  split; [unfold epc_load_bottom_articles, ep_load_bottom_articles; apply refused_guarded; destruct (c_nbottom c =? 0); reflexivity |].
+  split; [unfold epc_find_article_start_idx, ep_find_article_start_idx; apply refused_guarded; destruct (c_total c =? 0); reflexivity |].
+  split.
+  - intros fn0 Hfn. unfold epc_read_post. rewrite Hfn. apply refused_guarded. apply file_outcome_not_refused.
+  - unfold epc_read_post_template. apply refused_guarded. apply file_outcome_not_refused.
+Qed.
+
+(* the same as one statement about two contents: the verdict of an entry point does not depend on the content *)
+Lemma entry_points_content_independent : forall (i : inp) (c c' : content),
+  epc_is_board_valid_user i c = epc_is_board_valid_user i c' /\
+  refused (epc_load_general_articles i c) = refused (epc_load_general_articles i c') /\
+  refused (epc_load_bottom_articles i c) = refused (epc_load_bottom_articles i c') /\
+  refused (epc_find_article_start_idx i c) = refused (epc_find_article_start_idx i c') /\
+  (forall fn0, refused (epc_read_post i fn0 c) = refused (epc_read_post i fn0 c')) /\
+  refused (epc_read_post_template i c) = refused (epc_read_post_template i c').
+Proof.
+  intros i c c'.
+  destruct (entry_points_any_content i c) as (_ & H1 & H2 & H3 & H4 & H5).
+  destruct (entry_points_any_content i c') as (_ & H1' & H2' & H3' & H4' & H5').
+  split; [reflexivity |].
+  split; [rewrite H1, H1'; reflexivity |].
+  split; [rewrite H2, H2'; reflexivity |].
+  split; [rewrite H3, H3'; reflexivity |].
+  split; [| rewrite H5, H5'; reflexivity].
+  intros fn0. destruct ((fn0 =? 76) || (fn0 =? 0)) eqn:E.
+  - unfold epc_read_post. rewrite E. reflexivity.
+  - rewrite (H4 fn0 E), (H4' fn0 E). reflexivity.
+Qed.
+
+(* what a permitted caller gets is the content (an empty list where the counter is 0, the error of the missing
+   file where there is no file) *)
+Lemma entry_points_content_data : forall (i : inp) (c : content), may_read i = true ->
+  epc_load_general_articles i c = Data (if c_total c =? 0 then [] else c_recs c) /\
+  epc_load_bottom_articles i c = Data (if c_nbottom c =? 0 then [] else c_pinned c) /\
+  epc_find_article_start_idx i c = (if c_total c =? 0 then OtherErr 2 else Data (c_idx c)) /\
+  (forall fn0, (fn0 =? 76) || (fn0 =? 0) = false -> epc_read_post i fn0 c = file_outcome (c_body c)) /\
+  epc_read_post_template i c = file_outcome (c_template c).
+Proof.
+  intros i c Hm. destruct (entry_points i) as (_ & H1 & H2 & H3 & _ & _).
+  split; [unfold epc_load_general_articles; rewrite H1, Hm; destruct (c_total c =? 0); reflexivity |].
+  split; [unfold epc_load_bottom_articles; rewrite H2, Hm; destruct (c_nbottom c =? 0); reflexivity |].
+  split; [unfold epc_find_article_start_idx; rewrite H3, Hm; reflexivity |].
+  split.
+  - intros fn0 Hfn. unfold epc_read_post. rewrite Hfn, guarded_rule, Hm. reflexivity.
+  - unfold epc_read_post_template. rewrite guarded_rule, Hm. reflexivity.
+Qed.
+
+(* non-vacuity: on a board with nothing in it a refused caller is refused (not served an empty list), a permitted
+   one is served the empty list; same for "articles but nothing pinned" *)
+Definition content_empty : content := mk_content [] 1 [] None None true.
+Definition content_no_pinned : content := mk_content [1; 2] 1 [] (Some 196) (Some 196) true.
+Example empty_board_refuses : exists i, consistent i = true /\
+  epc_load_bottom_articles i content_empty = NotPermitted /\ epc_load_general_articles i content_empty = NotPermitted /\
+  epc_find_article_start_idx i content_empty = NotPermitted /\ epc_read_post i 77 content_empty = NotPermitted /\
+  epc_load_bottom_articles i content_no_pinned = NotPermitted.
+Proof. exists (mk_inp false false false true true false false false false false false true true false true false). vm_compute. repeat split; reflexivity. Qed.
+Example empty_board_serves_empty : exists i, consistent i = true /\
+  epc_load_bottom_articles i content_empty = Data [] /\ epc_load_general_articles i content_empty = Data [] /\
+  epc_find_article_start_idx i content_empty = OtherErr 2 /\ epc_read_post i 77 content_empty = OtherErr 3 /\
+  epc_load_bottom_articles i content_no_pinned = Data [].
+Proof. exists (mk_inp false false false true true false true false false false false true true false true false). vm_compute. repeat split; reflexivity. Qed.
+
+(* the listings on an empty candidate list show nothing, for every caller *)
+Lemma listing_empty u : load_general_boards u [] = [] /\ load_autocomplete_boards u [] = [] /\
+  load_boards_by_bids u [] = [] /\ load_hot_boards u [] = [] /\ load_class_boards u [] = [].
+Proof. repeat split; reflexivity. Qed.
+
 (* ------------------------------------------------------------------ listings *)
 Definition visible_i (i : inp) : bool := allowed i || group_op i.
 
